@@ -106,6 +106,11 @@ func (vm *VM) errIndexOutOfRange() runtimeError {
 
 // newPanic returns a new *PanicError with the given error message.
 func (vm *VM) newPanic(msg any) *PanicError {
+	if vm.fn == nil || vm.fn.Body[vm.pc-1].Op == OpReturn {
+		// A deferred native function, called by nextCall, has panicked: no
+		// instruction of a Scriggo function is the source of the panic.
+		return &PanicError{message: msg}
+	}
 	info, ok := vm.fn.InstructionInfo[vm.pc-1]
 	if !ok || info.Path == "" {
 		info = vm.fn.InstructionInfo[vm.pc]
@@ -123,7 +128,14 @@ func (vm *VM) convertPanic(msg any) error {
 	case outError:
 		return vm.newPanic(err)
 	}
-	switch op := vm.fn.Body[vm.pc-1].Op; op {
+	// A deferred native function is called by nextCall when a function
+	// returns or, with vm.fn nil, after a panic: if it panics, the panic is
+	// converted as the panic of a native function called by an instruction.
+	op := OpCallNative
+	if vm.fn != nil && vm.fn.Body[vm.pc-1].Op != OpReturn {
+		op = vm.fn.Body[vm.pc-1].Op
+	}
+	switch op {
 	case OpAddr, OpIndex, -OpIndex, OpIndexRef, -OpIndexRef, OpSetSlice, -OpSetSlice:
 		switch err := msg.(type) {
 		case runtime.Error:
